@@ -154,6 +154,16 @@ def encoder_semantics(ctx, rule="R3"):
     ctx.ob(rule, not bad, "a reserved character becomes '%' + two upper-case hex digits of its code point, every other character is passed through unchanged, "
            "and what the encoder caches for a character is what it returns for it", func=q,
            sig="encoder outcomes: %d character(s) escaped as %%XX, all others unchanged" % len(encoded) if not bad else "encoder: %s" % "; ".join(bad[:3]))
+    # the cache outlives a change of the module switch: what is cached must not depend on it
+    try:
+        flipped = Interp(ctx, overrides={("constants", "ignore_url_escape_characters"): True}).run(q, {bname: Sym("b", "str", None)}, self_obj={}, copy_self=True)
+    except Unsupported as e:
+        ctx.require(False, "encoder outside the analysable subset: %s" % e)
+    sig_of = lambda ts: sorted((repr([(repr(d[0]), d[1]) for d in t.decisions]), repr(t.result[1:])) for t in ts)
+    caches = any(e[0] == "setitem" for t in traces for e in t.events)
+    ctx.ob(rule, not caches or sig_of(traces) == sig_of(flipped), "what the encoder caches per character does not depend on the run-time switch ignore_url_escape_characters "
+           "(the cache would otherwise answer for the switch's earlier state)", func=q,
+           sig="cached encoder results are independent of the switch" if (not caches or sig_of(traces) == sig_of(flipped)) else "cached encoder result depends on ignore_url_escape_characters")
     ctx.floor(rule, len(rows), 2, "encoder outcomes (in the set / outside)")
     ctx.require(n_default >= 1, "no path of the encoder covers 'any other character'")
     return encoded - passed
